@@ -36,8 +36,8 @@ func c09StringConst(f *ast.File, name string) (string, bool) {
 	return "", false
 }
 
-// a chain `a == b && c == d && ...` as its (lhs, rhs) pairs; ok=false when any other operator occurs
-func c09EqConjuncts(e ast.Expr) (out [][2]string, ok bool) {
+// a chain `a == b && c != d && ...` as its (lhs, operator, rhs) triples; ok=false when a conjunct is not a comparison
+func c09EqConjuncts(e ast.Expr) (out [][3]string, ok bool) {
 	if p, isP := e.(*ast.ParenExpr); isP {
 		return c09EqConjuncts(p.X)
 	}
@@ -50,8 +50,8 @@ func c09EqConjuncts(e ast.Expr) (out [][2]string, ok bool) {
 		l, ok1 := c09EqConjuncts(b.X)
 		r, ok2 := c09EqConjuncts(b.Y)
 		return append(l, r...), ok1 && ok2
-	case token.EQL:
-		return [][2]string{{c09Src(b.X), c09Src(b.Y)}}, true
+	case token.EQL, token.NEQ, token.LSS, token.GTR, token.LEQ, token.GEQ:
+		return [][3]string{{c09Src(b.X), b.Op.String(), c09Src(b.Y)}}, true
 	}
 	return nil, false
 }
@@ -71,7 +71,7 @@ func c09EntryFacts(l *lean, amb *ast.File) {
 	}
 
 	// the closure handed to network.WithSelectionFilter in Start: structured
-	var conj [][2]string
+	var conj [][3]string
 	conjOK := false
 	nFilters := 0
 	if fd := c09Method(amb, "ambassador", "Start"); fd != nil {
@@ -92,11 +92,11 @@ func c09EntryFacts(l *lean, amb *ast.File) {
 	if conjOK && nFilters == 1 {
 		var items []string
 		for _, p := range conj {
-			items = append(items, "("+strconv.Quote(p[0])+", "+strconv.Quote(p[1])+")")
+			items = append(items, "("+strconv.Quote(p[0])+", "+strconv.Quote(p[1])+", "+strconv.Quote(p[2])+")")
 		}
-		l.def("startFilterConjuncts", "List (String × String)", "["+strings.Join(items, ", ")+"]", conj)
+		l.def("startFilterConjuncts", "List (String × String × String)", "["+strings.Join(items, ", ")+"]", conj)
 	} else {
-		l.def("startFilterConjuncts", "List (String × String)", ".unknown_selection_filter_shape", nFilters)
+		l.def("startFilterConjuncts", "List (String × String × String)", ".unknown_selection_filter_shape", nFilters)
 	}
 
 	// the options Start passes to Subscribe, in order (callee names only)
